@@ -484,6 +484,29 @@ for _o in LOGIC:
 OP_CLASS["^"] = "concat"
 
 
+SCALARS = ("Int", "String", "Bool", "Float", "Unit")
+
+
+def family(frm, to):
+    """Type family of a replacement as seen from the replaced node's type (keeps the signature set small:
+    exact types only where the payload of the same container changes)."""
+    if to == frm:
+        return "same type"
+    if to == "unbound":
+        return "unbound name"
+    if to in ("Fun", "Ctor"):
+        return "function"
+    if to in ("Tuple", "NoValue"):
+        return to
+    if to.startswith(("List<", "Option<")):
+        return to if frm.split("<")[0] == to.split("<")[0] else "container"
+    if to in ("Color", "Pt"):
+        return "user type"
+    if to in SCALARS:
+        return "other scalar" if frm in SCALARS else "scalar"
+    return to
+
+
 def apply_edit(node, path, repl):
     if not path:
         return repl
@@ -580,7 +603,7 @@ class Edits:
                 if a == e:
                     continue
                 at = typeof(a, scope, self.sigs) if a[0] != "var" else (scope.get(a[1]) or ("Fun" if a[1] in self.user else "unbound"))
-                self.add(path, f"{role}: {t}→{at}", a, f"{fine_role}: {t}→{at}")
+                self.add(path, f"{role}: {t}→{family(t, at)}", a, f"{fine_role}: {t}→{at}")
         if k == "bin":
             lt, rt = typeof(e[2], scope, self.sigs), typeof(e[3], scope, self.sigs)
             oc = OP_CLASS[e[1]]
